@@ -192,9 +192,35 @@ func meshes2(r *vlib.Run) {
 			c.Undecided("mesh:generator-produced-no-faces")
 			return
 		}
+		// as in 3D: the segments handed to the library may be reversed (all, one, or a random
+		// subset); distance, nearest point and the even-odd sign do not depend on that
+		lss := ss
+		reoriented := ""
+		if mc.closed && rng.Intn(4) == 0 {
+			lss = append(lss[:0:0], ss...)
+			switch rng.Intn(3) {
+			case 0:
+				reoriented = "all-segments-reversed"
+				for i := range lss {
+					lss[i][0], lss[i][1] = lss[i][1], lss[i][0]
+				}
+			case 1:
+				reoriented = "one-segment-reversed"
+				i := rng.Intn(len(lss))
+				lss[i][0], lss[i][1] = lss[i][1], lss[i][0]
+			default:
+				reoriented = "random-segments-reversed"
+				for i := range lss {
+					if rng.Intn(2) == 0 {
+						lss[i][0], lss[i][1] = lss[i][1], lss[i][0]
+					}
+				}
+			}
+			c.Count("mesh2d.reoriented."+reoriented, 1)
+		}
 		faces := make([]*model2d.Segment, len(ss))
 		index := map[*model2d.Segment]int{}
-		for i, s := range ss {
+		for i, s := range lss {
 			faces[i] = &model2d.Segment{s[0], s[1]}
 			index[faces[i]] = i
 		}
@@ -211,7 +237,7 @@ func meshes2(r *vlib.Run) {
 		lo, hi := poly.Bounds()
 		size := g.Len2(g.Sub2(hi, lo))
 		M := size + g.MaxAbs2(lo) + g.MaxAbs2(hi)
-		outward := mc.closed && vlib.SignedArea2(ss) < 0 // clockwise
+		outward := mc.closed && vlib.SignedArea2(ss) < 0 && reoriented == "" // clockwise
 		c.Count("mesh2d.meshes", 1)
 		c.Count("mesh2d.kind."+mc.kind, 1)
 		c.Count("mesh2d.faces_total", int64(len(ss)))
@@ -331,7 +357,7 @@ func meshes2(r *vlib.Run) {
 				if !smooth {
 					c.Undecided("mesh-normal:nearest-point-not-stably-inside-one-face")
 				} else {
-					e := g.Sub2(ss[bf][1], ss[bf][0])
+					e := g.Sub2(lss[bf][1], lss[bf][0])
 					want := g.Scale2(g.V2(-e.Y, e.X), 1/g.Len2(e))
 					if d := g.Len2(g.Sub2(n, want)); d > normalTol {
 						c.Violation(api+".NormalSDF/normal-of-nearest-face", fmt.Sprintf("normal %v differs from the normal %v of the unique nearest segment %d", n, want, bf), wit(p, nil))
